@@ -709,8 +709,14 @@ def run_key_vector(vec, tid: str, prop: str, variant: int = 0) -> dict:
         rec.meta["source"] = "MC_Keys"
         return rec.to_json()
     e = vec["e"]
-    r = rec.do("from_attributes", [], rows=[[e]], coefs=[[num(coef)]], shape=[], names=[0], rc="none", rn="true",
-               via="function", dtype="int64", bigexp=e)
+    # the exponent table as the caller's own array, in every integer dtype that holds the exponent (narrow ones first)
+    import numpy
+    fits = [d for d in ("uint8", "uint16", "int16", "int32", "uint32", "int64", "uint64") if e <= numpy.iinfo(d).max]
+    given = []
+    if (variant // 3) % 2 == 0:
+        given = [rec.new(numpy.array([[e]], dtype=fits[(variant // 6) % len(fits)])), rec.new(numpy.array(coef, dtype="int64"))]
+    r = rec.do("from_attributes", given, rows=[[e]], coefs=[[num(coef)]], shape=[], names=[0], rc=("none", "true")[(variant // 2) % 2],
+               rn="true", via=("function", "classmethod")[variant % 2], dtype="int64", bigexp=e)
     if r:
         rec.do("rebuild", r, keep=False, via=("raw", "attributes", "todict", "raw_polynomial")[variant % 4], bigexp=e)
         rec.do("copy", r, keep=False, how="pickle", protocol=variant % 6, bigexp=e)
